@@ -169,6 +169,19 @@ CLAIMS["C15"] = dict(
          "every leaf, and compares the implementation's second cast, base64 decoding, semi-strict bool and colon removal with the models.",
     note=TRUST + "partial: the typed resource models are validated by pydantic-core, which is trusted; their round trip is checked on the implementation only.")
 
+CLAIMS["C05"] = dict(
+    technique="Lean 4 proof (typing judgement for template expressions; progress + preservation: well-typed expressions and resource tables resolve) + sandboxed full pipeline on generated whole templates with a size-derived time budget and a magnified variant",
+    text="WT env e τ types template expressions (text, text lists, condition values, plain data) over all sixteen functions; "
+         "C05_resolve_progress proves by mutual induction on the derivation that every well-typed expression resolves (the model's "
+         "`none`, i.e. every raise site of the resolver, is unreachable) to a value of its type; C05_resources_progress lifts it to the "
+         "resource table; C05_network_kept / C05_binary_kept state that typed leaves (a CIDR range of any width, decoded bytes) are handed "
+         "over in one step by the generic casting and the resolver (the sites of D13 and D11). The check runs whole templates over nine "
+         "construct families (and a /0-magnified variant of each) through parse, resolve, expand_actions, every query on the three "
+         "models and re-validation inside a worker under RLIMIT_AS with a wall clock computed from the size of the template only; "
+         "in scope = Template.resolveT is defined on the parsed template.",
+    note=TRUST + "partial: wall time, peak memory and process termination are runtime behaviour, measured in the sandbox against a size-derived budget, not proved; "
+                 "the typing judgement covers the string form of Fn::Sub (the map form is covered by correspondence in C01); pydantic-core's validation of typed models is trusted.")
+
 CLAIMS["C06"] = dict(
     technique="Lean 4 proof over a table of write sites regenerated from the source on every run (translator) + histories of API calls on shared objects with deep snapshots (correspondence), thread stress as testing",
     text="harness/effects.py extracts every mutating statement of pycfmodel/**/*.py with the kind of object it writes through "
